@@ -4,8 +4,8 @@ from vlib import *
 import progcheck as pc
 
 MODULES = ["Mimium.Props.C02"]
-PROFILES_QUICK = [("core", 2500), ("deep", 600), ("stateless", 400), ("aggr", 500)]
-PROFILES_THOROUGH = [("core", 12000), ("deep", 3000), ("stateless", 2000), ("aggr", 5000)]
+PROFILES_QUICK = [("core", 2500), ("deep", 600), ("stateless", 400), ("aggr", 500), ("closure_assign", 300), ("nested", 300), ("nested_assign", 300)]
+PROFILES_THOROUGH = [("core", 12000), ("deep", 3000), ("stateless", 2000), ("aggr", 5000), ("closure_assign", 3000), ("nested", 3000), ("nested_assign", 3000)]
 
 
 def judge(vm, model):
